@@ -8,12 +8,14 @@ attempt; the __init__ post-condition (independent validator) on every instance
 that comes into existence during the whole run.
 """
 import copy
+import decimal
 import random
 import warnings
 import xml.etree.ElementTree as ET
 
 from vf.gen import instances
 from vf.monitors import online
+from vf.oracles import spec
 from vf.oracles import ref_decl, ref_validate
 
 PROP = "C04"
@@ -36,6 +38,23 @@ DESIGN_REF = "DESIGN.md §3 C04"
 EXHAUSTIVE = {"quick": "every declared constraint of every class x both routes, 2 base instances each", "thorough": "same x 8 base instances"}
 MIN_COUNTERS = {"quick": {"must_reject": 9000, "must_accept": 2500, "route_kwargs": 4000, "route_etree": 6000, "monitor_init_postcondition_calls": 30000},
                 "thorough": {"must_reject": 200000, "must_accept": 40000, "route_kwargs": 100000, "route_etree": 120000, "monitor_init_postcondition_calls": 600000}}
+
+
+_FOREIGN = []
+
+
+def foreign_tokens():
+    """Every string token of every enumeration the library declares (sorted, stable)."""
+    if not _FOREIGN:
+        from ofxtools import Types as T
+        seen = set()
+        for cls in ref_decl.all_classes().values():
+            for d in ref_decl.decl(cls).values():
+                conv = d.converter if isinstance(d, T.ListElement) else d
+                if isinstance(conv, T.OneOf):
+                    seen.update(x for x in conv.valid if isinstance(x, str))
+        _FOREIGN.extend(sorted(seen))
+    return _FOREIGN
 
 
 def shards(tier):
@@ -155,6 +174,14 @@ class Probe:
             if isinstance(t, T.OneOf):
                 valid = list(t.valid)
                 bads = [valid[0] + "X", valid[0].lower() if valid[0].lower() not in valid else valid[0] + "_", "ZZNOTATOKEN"]
+                # tokens that ARE legal - for some other enumeration of the library; and two neighbours run together (a lost comma)
+                pool = foreign_tokens()
+                bads += [self.rng.choice(pool) for _ in range(6)] + [str(a) + str(b) for a, b in zip(valid, valid[1:])][:3]
+                gold = spec.entry(self.name, attr)
+                if gold and gold.get("tokens"):
+                    gtok = [str(x) for x in gold["tokens"]]
+                    bads += [x for x in valid if str(x) not in gtok][:3]  # accepted by the model, unknown to the specification table
+                    self.ctx.count("enumerations_compared_with_spec_table")
                 for bad in bads:
                     if bad in valid:
                         continue
@@ -191,6 +218,9 @@ class Probe:
                 self.must_accept("integer-at-limit", "etree", lambda: self.from_etree(self.with_text(elem, tag, str(hi))), attr)
                 self.must_reject("integer-over-limit", "kwargs", lambda: cls(*args, **dict(kwargs, **{attr: hi + 1})), attr)
                 self.must_reject("integer-over-limit", "kwargs", lambda: cls(*args, **dict(kwargs, **{attr: str(hi + 1)})), attr + "=str")
+                for over in (decimal.Decimal(hi + 1), float(hi + 1), decimal.Decimal(10) ** (t.length + 2), -(10 ** (t.length + 3))):
+                    # whatever numeric type carries it: more digits than declared (refusing the TYPE is just as good)
+                    self.must_reject("integer-over-limit", "kwargs", lambda o=over: cls(*args, **dict(kwargs, **{attr: o})), attr + "=" + type(over).__name__)
                 self.must_reject("integer-over-limit", "etree", lambda: self.from_etree(self.with_text(elem, tag, str(hi + 1))), attr)
 
     def with_text(self, elem, tag, text):
